@@ -300,7 +300,7 @@ func conn(args []string) string {
 	if len(werrs) > 0 {
 		we = strings.Join(werrs, ",")
 	}
-	return fmt.Sprintf("wire=%s w=%s %s", hx(wire), we, rres)
+	return fmt.Sprintf("ok wire=%s w=%s %s", hx(wire), we, rres)
 }
 
 // readAll: a fresh reading end on a connection that delivers `chunks`; mode changes applied at their packet counts
@@ -383,7 +383,11 @@ func readOnly(args []string) string {
 			}
 		}
 	}
-	return readAll(chunkBy(sizes, stream), n0, uint32(pr), cc != 0, sched, rb, 4096)
+	rres := readAll(chunkBy(sizes, stream), n0, uint32(pr), cc != 0, sched, rb, 4096)
+	if !strings.HasPrefix(rres, "r=") {
+		return rres
+	}
+	return "ok " + rres
 }
 
 func wlen(args []string) string {
